@@ -233,6 +233,32 @@ func c07Judge(c *mon.Ctx, in *c07Input) {
 		d.AttachAfterError(func(*interpreter.State, error) { n++ })
 		d.AttachAfterSuccess(func(*interpreter.State) { n++ })
 		opts = append(opts, interpreter.WithDebugger(d))
+	case "accessors":
+		// a debugger that looks at every snapshot through the library's own
+		// accessors, in every hook (what the repository's debugger tests do in
+		// some): a panic inside State.Opcode / State.RemainingScript leaves
+		// Execute like any other panic
+		d := debug.NewDebugger()
+		n := 0
+		look := func(s *interpreter.State) {
+			op := s.Opcode()
+			n += len(op.Data) + len(op.Name()) + len(s.RemainingScript())
+		}
+		d.AttachBeforeExecute(look)
+		d.AttachAfterExecute(look)
+		d.AttachBeforeStep(look)
+		d.AttachAfterStep(look)
+		d.AttachBeforeExecuteOpcode(look)
+		d.AttachAfterExecuteOpcode(look)
+		d.AttachBeforeScriptChange(look)
+		d.AttachAfterScriptChange(look)
+		d.AttachBeforeStackPush(func(s *interpreter.State, _ []byte) { look(s) })
+		d.AttachAfterStackPush(func(s *interpreter.State, _ []byte) { look(s) })
+		d.AttachBeforeStackPop(look)
+		d.AttachAfterStackPop(func(s *interpreter.State, _ []byte) { look(s) })
+		d.AttachAfterError(func(s *interpreter.State, _ error) { look(s) })
+		d.AttachAfterSuccess(look)
+		opts = append(opts, interpreter.WithDebugger(d))
 	}
 	var err error
 	if !c.Try("interpreter.Engine.Execute["+in.Mode+"]", func() { err = theEngine(c).Execute(opts...) }) {
@@ -276,7 +302,7 @@ func c07Flags(r *prng.R, i uint64) uint32 {
 func init() {
 	p := &mon.Property{
 		ID: "C07",
-		Rule: "Every Engine.Execute call runs under the recover monitor in a child process (a child death or a case that does not return is attributed through the progress marker and confirmed alone). Sources: all 256 hash-type bytes on a well-formed signature x 27 (inputs 1..3, outputs 0..2, checked index) transaction shapes x 6 flag sets x CHECKSIG / CHECKMULTISIG; random byte pairs (lengths 0..80 and the 10000/10001-byte boundary), every truncation and 8 mutations of each node vector, structured random programs, the enumerated opcode x edge-operand programs; flag words sampled from all 2^16 (always including each single bit, 0 and all ones); short programs over a small alphabet around signature opcodes / code separators / OP_RETURN / conditionals; structurally malformed DER signatures; transactions of 1-3 inputs and 0-2 outputs with the checked input at any position; twelve transaction-context modes (scripts only, tx, tx without previous output, nil tx with negative index, index out of range, -1, nil unlocking script, tx without inputs, previous output without script, nil scripts); no debugger / recording debugger / debug.NewDebugger with attached functions. " +
+		Rule: "Every Engine.Execute call runs under the recover monitor in a child process (a child death or a case that does not return is attributed through the progress marker and confirmed alone). Sources: all 256 hash-type bytes on a well-formed signature x 27 (inputs 1..3, outputs 0..2, checked index) transaction shapes x 6 flag sets x CHECKSIG / CHECKMULTISIG; random byte pairs (lengths 0..80 and the 10000/10001-byte boundary), every truncation and 8 mutations of each node vector, structured random programs, the enumerated opcode x edge-operand programs; flag words sampled from all 2^16 (always including each single bit, 0 and all ones); short programs over a small alphabet around signature opcodes / code separators / OP_RETURN / conditionals; structurally malformed DER signatures; transactions of 1-3 inputs and 0-2 outputs with the checked input at any position; twelve transaction-context modes (scripts only, tx, tx without previous output, nil tx with negative index, index out of range, -1, nil unlocking script, tx without inputs, previous output without script, nil scripts); no debugger / recording debugger / debug.NewDebugger with attached functions / debug.NewDebugger whose functions, attached to every hook, read each snapshot through State.Opcode and State.RemainingScript. " +
 			"distinct_nontrivial = distinct (unlock, lock, flags, mode, debugger) whose scripts are longer than 2 bytes together or that ran at least one instruction or succeeded.",
 		Assum: []string{"termination is restated as bounded progress: a case counts as non-returning only when it exceeds 600 s when re-run alone",
 			"children run with a 24 GiB address-space limit; a Go fatal error (out of memory, stack overflow) kills only the child and is reported as a violation after confirmation"},
@@ -303,6 +329,8 @@ func init() {
 				return "recording"
 			case 1:
 				return "default"
+			case 2:
+				return "accessors"
 			}
 			return "none"
 		}
@@ -315,7 +343,7 @@ func init() {
 			u, _ := vectorsParse(pg[0])
 			l, _ := vectorsParse(pg[1])
 			for _, m := range c07Modes {
-				for _, d := range []string{"none", "recording", "default"} {
+				for _, d := range []string{"none", "recording", "default", "accessors"} {
 					for _, fl := range []uint32{0, 0xffff, uint32(scriptflag.UTXOAfterGenesis), uint32(scriptflag.VerifyCheckLockTimeVerify | scriptflag.VerifyCheckSequenceVerify),
 						uint32(scriptflag.EnableSighashForkID | scriptflag.UTXOAfterGenesis), uint32(scriptflag.Bip16 | scriptflag.VerifyCleanStack)} {
 						n++
@@ -716,7 +744,7 @@ func init() {
 	}
 	p.Floor = func(a *mon.Agg) string {
 		for _, m := range c07Modes {
-			for _, d := range []string{"none", "recording", "default"} {
+			for _, d := range []string{"none", "recording", "default", "accessors"} {
 				if a.Cov["mode:"+m+":dbg:"+d]+a.Cov["C07:panicked:"+m] == 0 {
 					return "context mode " + m + " with debugger " + d + " never exercised"
 				}
